@@ -12,6 +12,7 @@ counter-model that z3 then confirms against P (ground query).
 
 from __future__ import annotations
 
+import os
 import random
 from fractions import Fraction
 
@@ -141,7 +142,7 @@ def prove_equalities(premises, claim, timeout_ms=10000, depth=0, rules=()):
     try:
         return _prove_equalities(premises, claim, timeout_ms, rules)
     except Undecided as u:
-        if depth >= 48:
+        if depth >= int(os.environ.get("PDV_RATNF_DEPTH", "48")):
             return ("unknown", "too many undecided If conditions")
         r1 = prove_equalities(list(premises) + [u.cond], claim, timeout_ms, depth + 1, rules)
         if r1[0] != "proved":
